@@ -96,15 +96,22 @@ class YAMLPath:
         if not isinstance(other, (YAMLPath, str)):
             return False
 
-        equiv_this = YAMLPath(self)
-        equiv_this.separator = PathSeparators.FSLASH
-        cmp_this = str(equiv_this)
+        return (YAMLPath._comparable_segments(YAMLPath(self))
+                == YAMLPath._comparable_segments(YAMLPath(other)))
 
-        equiv_that = YAMLPath(other)
-        equiv_that.separator = PathSeparators.FSLASH
-        cmp_that = str(equiv_that)
-
-        return cmp_this == cmp_that
+    @staticmethod
+    def _comparable_segments(path: "YAMLPath") -> List[tuple]:
+        """Reduce the parsed segments of a path to plain, comparable data."""
+        comparable: List[tuple] = []
+        for (segment_type, segment_attrs) in path.escaped:
+            if isinstance(segment_attrs, CollectorTerms):
+                comparable.append((
+                    segment_type, str(segment_attrs.operation),
+                    YAMLPath._comparable_segments(
+                        YAMLPath(segment_attrs.expression))))
+            else:
+                comparable.append((segment_type, str(segment_attrs)))
+        return comparable
 
     def __ne__(self, other: object) -> bool:
         """Indicate non-equivalence of two YAMLPaths."""
